@@ -1,12 +1,16 @@
-(* Correspondence glue for C18: a case carries the inputs and the implementation's outputs. *)
+(* Correspondence glue for C18: a case carries the inputs and the implementation's outputs.
+   `check`  : the model reproduces every output of the implementation (the tie to the code);
+   `oracle` : the property's laws judged on the implementation's outputs alone (the search leg). *)
 From Coq Require Import List NArith ZArith Bool.
 From VRL Require Import Base.Bytes Base.Value Base.Lit Model.ValueCrud.
 Import ListNotations.
 
 Inductive case :=
 | CGet (v : value) (p : path) (res : option value)
-| CInsert (v : value) (p : path) (x : value) (res : option value) (v' : value)
-| CRemove (v : value) (p : path) (prune : bool) (res : option value) (v' : value).
+| CInsert (v : value) (p q : path) (x : value) (res : option value) (v' : value)
+          (gp_before gp_after gq_before gq_after : option value)
+| CRemove (v : value) (p : path) (prune : bool) (res : option value) (v' : value)
+          (gp_before gp_after : option value).
 
 Definition opt_eqb (a b : option value) : bool :=
   match a, b with
@@ -18,15 +22,35 @@ Definition opt_eqb (a b : option value) : bool :=
 Definition check (c : case) : bool :=
   match c with
   | CGet v p r => opt_eqb (get v p) r
-  | CInsert v p x r v' => opt_eqb (insert_prev v p) r && value_eqb (insert v p x) v'
-  | CRemove v p pr r v' =>
-      let '(r0, v0) := remove v p pr in opt_eqb r0 r && value_eqb v0 v'
+  | CInsert v p q x r v' gpb gpa gqb gqa =>
+      opt_eqb (insert_prev v p) r && value_eqb (insert v p x) v'
+      && opt_eqb (get v p) gpb && opt_eqb (get (insert v p x) p) gpa
+      && opt_eqb (get v q) gqb && opt_eqb (get (insert v p x) q) gqa
+  | CRemove v p pr r v' gpb gpa =>
+      let '(r0, v0) := remove v p pr in
+      opt_eqb r0 r && value_eqb v0 v' && opt_eqb (get v p) gpb && opt_eqb (get v0 p) gpa
+  end.
+
+Definition last_is_field (p : path) : bool :=
+  match rev p with SField _ :: _ => true | _ => false end.
+
+Definition oracle (c : case) : bool :=
+  match c with
+  | CGet _ _ _ => true
+  | CInsert v p q x r v' gpb gpa gqb gqa =>
+      opt_eqb gpa (Some x)                                   (* get after insert *)
+      && opt_eqb r gpb                                       (* insert returns the previous occupant *)
+      && (if disjoint_stable (Some v) p q then opt_eqb gqb gqa else true)   (* frame *)
+  | CRemove v p pr r v' gpb gpa =>
+      opt_eqb r gpb                                          (* remove returns what get returned *)
+      && (match gpb with None => value_eqb v v' | Some _ => true end)   (* nothing found => unchanged *)
+      && (if last_is_field p then opt_eqb gpa None else true)           (* removed field is gone *)
   end.
 
 (* what the model says, for replay files *)
 Definition model_out (c : case) : option value * option value :=
   match c with
   | CGet v p _ => (get v p, None)
-  | CInsert v p x _ _ => (insert_prev v p, Some (insert v p x))
-  | CRemove v p pr _ _ => let '(r0, v0) := remove v p pr in (r0, Some v0)
+  | CInsert v p _ x _ _ _ _ _ _ => (insert_prev v p, Some (insert v p x))
+  | CRemove v p pr _ _ _ _ => let '(r0, v0) := remove v p pr in (r0, Some v0)
   end.
